@@ -91,9 +91,13 @@ class Ops:
       return SV(sort, z3.Function('kwarg_true' if v else 'kwarg_false', sort.z3())())
     if v is NONEV and isinstance(sort, Opaque) and sort.nullable:
       return SV(sort, sort.literal(None))
+    if isinstance(v, PyTuple) and getattr(sort, 'from_tuple', None):
+      return sort.from_tuple(self, v)        # a python tuple display (possibly with *rest) read as a value of this sort
     if isinstance(v, PyTuple) and len(v) == 0 and isinstance(sort, Opaque) and not sort.is_str:
       return SV(sort, sort.literal(()))      # the empty tuple as a distinguished value
     if isinstance(v, FString) and isinstance(sort, Opaque):
+      if len(v.parts) == 1 and isinstance(v.parts[0], SV) and v.parts[0].sort.name == sort.name and sort.is_str:
+        return SV(sort, v.parts[0].t)      # f'{name}' of a string is the string itself
       return self.fresh(sort, 'fstring')   # formatted text (messages): an unconstrained string
     if isinstance(v, Lit):
       if isinstance(sort, Opaque):
@@ -363,6 +367,16 @@ class Ops:
         for c in U.ctors.values():
           if (want is None and 'NoneType' in c.pytypes and c.is_const is None and not c.fields) or (want is Ellipsis and c.is_const is Ellipsis):
             return U.is_(c.name, a.t)
+        if want is None:
+          # None carried as the payload of a constructor whose payload sort is nullable (e.g. an axis spec that may be None)
+          hits = []
+          for c in U.ctors.values():
+            if c.payload and 'NoneType' in c.pytypes:
+              ps = U.field_sort(c.name, c.payload)
+              if getattr(ps, 'nullable', False) and hasattr(ps, 'literal'):
+                hits.append(z3.And(U.is_(c.name, a.t), U.acc(c.name, c.payload, a.t) == ps.literal(None)))
+          if hits:
+            return z3.Or(*hits)
         return zbool(False)
       if isinstance(b, bool):
         for c in U.ctors.values():
